@@ -1414,11 +1414,17 @@ class ConfigInformation:
 
             if "file" in definition:
                 path = definition["file"]
-                with add_to_path(str(Path(path).parent)):
-                    spec = importlib.util.spec_from_file_location(module_name, path)
-                    mod = importlib.util.module_from_spec(spec)
-                    sys.modules[module_name] = mod
-                    spec.loader.exec_module(mod)
+                mod = sys.modules.get(module_name, None)
+                if mod is None or getattr(mod, "__file__", None) != path:
+                    # Loads the module only once (otherwise, the classes of two
+                    # definitions coming from the same file would differ)
+                    with add_to_path(str(Path(path).parent)):
+                        spec = importlib.util.spec_from_file_location(
+                            module_name, path
+                        )
+                        mod = importlib.util.module_from_spec(spec)
+                        sys.modules[module_name] = mod
+                        spec.loader.exec_module(mod)
             else:
                 try:
                     logger.debug("Importing module %s", definition["module"])
